@@ -225,12 +225,21 @@ func propC15(r *Run) {
 			evals++
 		}
 		rofaults := 0
-		for _, ro := range []string{"authenticate", "authenticate-wrong", "exists", "list", "list-full", "check"} {
+		// "-reserved": the call concerns a name whose file is an empty reservation (an add in flight
+		// in another process, or left behind by one that crashed) - still nothing to clean up here
+		reserve := func(f *simfs.FS, ro string) {
+			if strings.HasSuffix(ro, "-reserved") {
+				f.Put(w.base()+"/pending"+[]string{".user", ".admin"}[len(sc.users)%2], nil, 0o600)
+				f.Mutations = 0
+			}
+		}
+		for _, ro := range []string{"authenticate", "authenticate-wrong", "exists", "list", "list-full", "check", "authenticate-reserved", "exists-reserved", "list-reserved"} {
 			for pass := 0; pass < 2; pass++ {
 				f := sc.pre.Clone()
 				var nops int
 				{ // count
 					g := sc.pre.Clone()
+					reserve(g, ro)
 					w.use(g)
 					w.readOnly(ro)
 					nops = g.NOps
@@ -254,6 +263,7 @@ func propC15(r *Run) {
 						}
 						rofaults++
 					}
+					reserve(f, ro)
 					w.use(f)
 					ok := w.readOnly(ro)
 					if f.Mutations != 0 {
@@ -303,6 +313,13 @@ func (w *World) readOnly(kind string) (ok bool) {
 			ok, _, _, _, _ = d.Authenticate(u, pw)
 		case "authenticate-wrong":
 			ok, _, _, _, _ = d.Authenticate(u, pw+"-wrong")
+		case "authenticate-reserved":
+			d.Authenticate("pending", "x") //nolint
+		case "exists-reserved":
+			d.Exists("pending") //nolint
+		case "list-reserved":
+			d.List()     //nolint
+			d.ListFull() //nolint
 		case "exists":
 			d.Exists(u) //nolint
 		case "list":
